@@ -158,6 +158,10 @@ class TransposeIndexRule(AbstractBinaryRule):
         if len(shapes) > 1:
             raise NoReduction
         shape = shapes.pop()
+        # a single diagonal of the promoted dtype would widen the leaves of narrower dtype
+        dtypes = {leaf.dtype for leaf in jax.tree.leaves(right.in_structure())}
+        if len(dtypes) > 1:
+            raise NoReduction
 
         axis = indexed_axes[0]
         index = right.indices[axis]
